@@ -10,34 +10,37 @@ pub mod sys {
 pub use sys::Driver;
 pub use buffer_pool::*;
 use compio_buf::*;
-use std::{mem::MaybeUninit, ptr::NonNull};
-
-static mut LIVE: isize = 0;
-pub struct CountAlloc;
-impl BufferAllocator for CountAlloc {
-    fn allocate(len: u32) -> NonNull<MaybeUninit<u8>> { unsafe { LIVE += 1; } BoxAllocator::allocate(len) }
-    unsafe fn deallocate(ptr: NonNull<MaybeUninit<u8>>, len: u32) { unsafe { LIVE -= 1; BoxAllocator::deallocate(ptr, len) } }
-}
 
 #[cfg(kani)]
 mod proofs {
     use super::*;
     use crate::buffer_pool::{BufferAlloc, BufferPoolRoot};
-    fn ok<T, E>(r: Result<T, E>) -> T { match r { Ok(v) => v, Err(_) => { kani::assume(false); loop {} } } }
-    #[kani::proof]
-    #[kani::unwind(4)]
-    fn v4_pool_alive() {
-        let mut d = Driver;
-        let root = ok(BufferPoolRoot::new(&mut d, BufferAlloc::new::<BoxAllocator>(), 2, 2, 0));
-        let pool = root.get_pool();
+    fn ok<T, E>(r: Result<T, E>) -> T { match r { Ok(v) => v, Err(e) => { std::mem::forget(e); kani::assume(false); loop {} } } }
+    fn mk() -> BufferPoolRoot { let mut d = Driver; ok(BufferPoolRoot::new(&mut d, BufferAlloc::new::<BoxAllocator>(), 2, 2, 0)) }
+    #[kani::proof] #[kani::unwind(4)]
+    fn va_pop_forget() {
+        let root = mk(); let pool = root.get_pool();
         let a = ok(pool.pop());
-        let b = ok(pool.pop());
-        assert!(a.as_init().as_ptr() != b.as_init().as_ptr());
-        assert!(pool.pop().is_err());
-        assert!(ok(pool.take(0)).is_none());
-        assert!(ok(pool.take(1)).is_none());
-        if kani::any() { drop(a); assert!(pool.pop().is_ok_and(|x| { std::mem::forget(x); true })); std::mem::forget(b); }
-        else { drop(b); drop(a); let x = ok(pool.pop()); let y = ok(pool.pop()); assert!(pool.pop().is_err()); std::mem::forget(x); std::mem::forget(y); }
+        std::mem::forget(a); std::mem::forget(pool); std::mem::forget(root);
+    }
+    #[kani::proof] #[kani::unwind(4)]
+    fn vb_pop_drop() {
+        let root = mk(); let pool = root.get_pool();
+        let a = ok(pool.pop());
+        drop(a);
+        std::mem::forget(pool); std::mem::forget(root);
+    }
+    #[kani::proof] #[kani::unwind(4)]
+    fn vc_pop_err_forget() {
+        let root = mk(); let pool = root.get_pool();
+        let a = ok(pool.pop()); let b = ok(pool.pop());
+        match pool.pop() { Ok(x) => { std::mem::forget(x); assert!(false); } Err(e) => { std::mem::forget(e); } }
+        std::mem::forget(a); std::mem::forget(b); std::mem::forget(pool); std::mem::forget(root);
+    }
+    #[kani::proof] #[kani::unwind(4)]
+    fn vd_drop_pool_handle() {
+        let root = mk(); let pool = root.get_pool();
+        drop(pool);
         std::mem::forget(root);
     }
 }
